@@ -221,6 +221,17 @@ def entry_points():
     E['compute_features_3d.01.progress'] = lambda v: compute_features_3d(sigs3, 64, (6, 14), {'threshold_kwargs': dict(S.T0)}, axis=(0, 1), n_jobs=1, progress=v)
     E['BycycleGroup.fit.progress'] = lambda v: BycycleGroup(thresholds=dict(S.T0)).fit(sigs2, 64, (6, 14), n_jobs=1, progress=v)
     # dimensionality
+    # singleton-axis shapes (what file readers return for one channel) are still the wrong dimensionality
+    E['Bycycle.fit.shape'] = lambda v: Bycycle(thresholds=dict(S.T0)).fit(sig[:48].reshape(tuple(v)), 64, (6, 14))
+    E['BycycleGroup.fit.shape'] = lambda v: BycycleGroup(thresholds=dict(S.T0)).fit(sig[:48].reshape(tuple(v)), 64, (6, 14), n_jobs=1)
+    # many signals per worker (a size-keyed dispatch path must validate the same settings)
+    many2 = np.array([S.word_signal('aabeaa') * (1 + i) for i in range(9)])
+    many3 = many2.reshape(3, 3, -1)
+    E['compute_features_2d.many.progress'] = lambda v: compute_features_2d(many2, 64, (6, 14), {'threshold_kwargs': dict(S.T0)}, n_jobs=1, progress=v)
+    E['compute_features_3d.01.many.progress'] = lambda v: compute_features_3d(many3, 64, (6, 14), {'threshold_kwargs': dict(S.T0)}, axis=(0, 1), n_jobs=1, progress=v)
+    E['compute_features_3d.many.progress'] = lambda v: compute_features_3d(many2.reshape(9, 1, -1), 64, (6, 14), {'threshold_kwargs': dict(S.T0)}, axis=0, n_jobs=1, progress=v)
+    E['BycycleGroup.fit.many.progress'] = lambda v: BycycleGroup(thresholds=dict(S.T0)).fit(many2, 64, (6, 14), n_jobs=1, progress=v)
+    E['compute_features_2d.many.axis'] = lambda v: compute_features_2d(many2, 64, (6, 14), {'threshold_kwargs': dict(S.T0)}, axis=v, n_jobs=1)
     E['Bycycle.fit.ndim'] = lambda v: Bycycle(thresholds=dict(S.T0)).fit((np.zeros((2,) * (v - 1) + (48,)) + sig[:48]) if v else np.array(1.), 64, (6, 14))
     E['BycycleGroup.fit.ndim'] = lambda v: BycycleGroup(thresholds=dict(S.T0)).fit((np.zeros((1,) * (v - 1) + (48,)) + sig[:48]) if v else np.array(1.), 64, (6, 14), n_jobs=1)
     E['detect_bursts_cycles.positional'] = lambda v: detect_bursts_cycles(_table().drop(columns=['is_burst']), *v)
@@ -296,6 +307,15 @@ def probes():
             P.append([e + '.min_n_cycles', v, exp])
     for v, exp in ((0, 'VE'), (1, 'ok'), (2, 'VE'), (3, 'VE')):
         P.append(['Bycycle.fit.ndim', v, exp])
+    for v, exp in (([48], 'ok'), ([1, 48], 'VE'), ([48, 1], 'VE'), ([1, 1, 48], 'VE'), ([2, 24], 'VE')):
+        P.append(['Bycycle.fit.shape', v, exp])
+    for v, exp in (([48], 'VE'), ([1, 48], 'ok'), ([1, 1, 48], 'ok'), ([1, 1, 1, 48], 'VE')):
+        P.append(['BycycleGroup.fit.shape', v, exp])
+    for e in ('compute_features_2d.many', 'compute_features_3d.01.many', 'compute_features_3d.many', 'BycycleGroup.fit.many'):
+        for v, exp in ((None, 'ok'), ('tqdm', 'ok'), ('bar', 'VE'), ('rich', 'VE'), (True, 'VE')):
+            P.append([e + '.progress', v, exp])
+    for v, exp in ((0, 'ok'), (None, 'ok'), (1, 'VE'), ('0', 'VE'), (-1, 'VE')):
+        P.append(['compute_features_2d.many.axis', v, exp])
     for v, exp in ((0, 'VE'), (1, 'VE'), (2, 'ok'), (3, 'ok'), (4, 'VE')):
         P.append(['BycycleGroup.fit.ndim', v, exp])
     # the same out-of-range values carried by numpy scalar types
